@@ -1,4 +1,5 @@
 import DSV.Proofs.History
+import DSV.Proofs.Leave
 /-!
 # C09 — retained snapshots are immutable and time travel is stable
 
@@ -61,6 +62,30 @@ theorem delete_current_repoints_hist (ops : List DSV.History.Op) (h : DSV.Histor
     (hc : (DSV.History.run ops).md.cur = P.id i) (m' : Meta) (hd : delSnap i (DSV.History.run ops).md = some m') :
     (m'.snaps = [] ∧ m'.cur = P.none) ∨ (∃ r ∈ m'.snaps, m'.cur = P.id r.id ∧ ∀ s ∈ m'.snaps, s.born ≤ r.born) :=
   delete_current_repoints'' _ m' (md_wf' ops h) i hc hd
+
+/-! ### how a snapshot can leave the table -/
+
+/-- **commit_keeps_snapshots** — with no retention count configured, a commit without an expiry (append, delete, both) keeps every
+retained snapshot retained, whatever it writes -/
+theorem commit_keeps_snapshots (s : St) (now id nApp : Nat) (deleted : List Nat) (h : s.md.retention = Option.none) :
+    ∀ x ∈ s.md.ids, x ∈ (DSV.History.step s (.commit now id Option.none nApp deleted)).md.ids :=
+  commit_keeps_snapshots' s now id nApp deleted h
+
+/-- **failed_and_gc_keep_metadata** — a failed commit and a collection do not touch the metadata at all -/
+theorem failed_and_gc_keep_metadata (s : St) (nApp : Nat) (deleted : List Nat) (cleaned : Bool) (cands : Files) :
+    (DSV.History.step s (.failed nApp deleted cleaned)).md = s.md ∧ (DSV.History.step s (.gc cands)).md = s.md :=
+  ⟨failed_keeps_md' s nApp deleted cleaned, gc_keeps_md' s cands⟩
+
+/-- **expiry_exact** — an expiry keeps every snapshot that is not older than the cutoff and the current one, and everything it
+keeps is such a snapshot: exactly the older non-current ones leave -/
+theorem expiry_exact (c : Nat) (m : Meta) :
+    (∀ s ∈ m.snaps, (s.ts ≥ c ∨ P.id s.id = m.cur) → s.id ∈ (expire c m).ids) ∧
+    (∀ x ∈ (expire c m).ids, ∃ s ∈ m.snaps, s.id = x ∧ (s.ts ≥ c ∨ P.id s.id = m.cur)) :=
+  ⟨fun s hs h => expire_keeps_young_and_current' c m s hs h, expire_drops_only_old' c m⟩
+
+/-- **metadata_log_bound_is_not_a_snapshot_bound** — `write.metadata.previous-versions-max` bounds the metadata LOG only -/
+theorem metadata_log_bound_is_not_a_snapshot_bound (r : Option Int) (m : Meta) :
+    (setPrevMax r m).snaps = m.snaps ∧ (setPrevMax r m).cur = m.cur ∧ (setPrevMax r m).retention = m.retention := ⟨rfl, rfl, rfl⟩
 
 /-! ### what the property excludes (the two mutations its rationale names) -/
 
